@@ -11,6 +11,7 @@
 EXTENDS Republisher, Integers
 
 Trace == ndJsonDeserialize("trace.ndjson")
+TValues == 1..40      \* the harness uses values 1..39 (cfg: Values <- TValues)
 VARIABLE l
 tlvars == <<vars, l>>
 ASSUME TLCSet(1, 0)
